@@ -12,6 +12,63 @@ METHODS = {
 }
 
 
+def _by_cases(prog, b, paths, adt, meth):
+    """None if the paths of eq/partial_cmp/cmp are exactly: (null, null) -> equal; (null, obj) -> less / unequal;
+    (obj, null) -> greater / unequal; (obj, obj) -> the payload type's operation on deref(self), deref(other).
+    Otherwise a reason."""
+    from .sym import subterms
+    isnull = "%s::<%s>::is_null" % (adt, "T" if adt.endswith("Rc") else "'g, T")
+    deref = isnull.replace("is_null", "deref")
+    seen = set()
+
+    def ordering(t):
+        t = strip(t)
+        if isinstance(t, tuple) and t[0] == "agg" and t[1] == "std::cmp::Ordering":
+            return t[2]
+        return None
+    for p in paths:
+        if p.exit[0] != "return":
+            return "a path does not return"
+        dec = {}
+        for e in p.events:
+            if e.kind == "cond" and isinstance(e.term, tuple) and e.term[0] == "call" and e.term[1] == isnull and e.value in (0, 1):
+                a = strip(e.term[2][0])
+                for k in (1, 2):
+                    if a == ("arg", k, b.local_name(k)):
+                        dec[k] = e.value == 1
+        cases = [(x, y) for x in ((dec[1],) if 1 in dec else (True, False)) for y in ((dec[2],) if 2 in dec else (True, False))]
+        ret = strip(p.ret)
+        for (an, bn) in cases:
+            seen.add((an, bn))
+            if not an and not bn:
+                want = {"eq": ("PartialEq", "eq"), "partial_cmp": ("PartialOrd", "partial_cmp"), "cmp": ("Ord", "cmp")}[meth]
+                okc = isinstance(ret, tuple) and ret[0] == "call" and ret[1].endswith("::" + want[1]) and want[0] in ret[1] \
+                    and len(ret[2]) == 2
+                if okc:
+                    for k in (0, 1):
+                        d = [x for x in subterms(ret[2][k]) if x[0] == "call" and x[1] == deref]
+                        okc = okc and len(d) == 1 and any(y == ("arg", k + 1, b.local_name(k + 1)) for y in subterms(d[0]))
+                if not okc:
+                    return "two objects are not compared by %s::%s on deref(self), deref(other)" % want
+                continue
+            if meth == "eq":
+                want = 1 if (an and bn) else 0
+                if not (isinstance(ret, tuple) and ret[0] == "c" and ret[1] == want):
+                    return "null cases of eq: (%s, %s) does not give %s" % (an, bn, bool(want))
+            else:
+                want = "Equal" if (an and bn) else "Less" if an else "Greater"
+                got = ret
+                if meth == "partial_cmp":
+                    if not (isinstance(ret, tuple) and ret[0] == "agg" and ret[2] == "Some" and ret[3]):
+                        return "null cases of partial_cmp do not return Some(..)"
+                    got = ret[3][0]
+                if ordering(got) != want:
+                    return "null cases of %s: (null=%s, null=%s) does not give %s" % (meth, an, bn, want)
+    if seen != {(True, True), (True, False), (False, True), (False, False)}:
+        return "not all four null cases are decided"
+    return None
+
+
 def rule_cmp_delegate(ctx):
     r = RuleResult("CMP-DELEGATE", ["C19"],
                    "Eq/Ord/PartialOrd/Hash of Rc and Snapshot are exactly the Option<&T> operations applied to as_ref(); "
@@ -28,6 +85,14 @@ def rule_cmp_delegate(ctx):
             r.paths += len(paths)
             ok = len(paths) == 1
             why = "more than one path" if not ok else None
+            if not ok and noperands == 2 and meth != "hash":
+                # the same relation spelled out: a case analysis on which operand is null - null is equal to null only and
+                # smaller than every object, two objects compare as their referents do
+                why2 = _by_cases(prog, b, paths, adt, meth)
+                if why2 is None:
+                    r.instance("%s == Option<&T>::%s(as_ref..) (spelled out by null cases)" % (name, meth), True)
+                    continue
+                why = "more than one path, and not the null-case analysis either: %s" % why2
             if ok:
                 p = paths[0]
                 calls = [e for e in p.events if e.kind == "call"]
